@@ -18,7 +18,7 @@ from sim.core import sub_rng
 
 PROP = "C03"
 LEVEL = "exploration"
-TIERS = {"quick": dict(runs=640, chunk=10), "thorough": dict(budget_s=480, max_runs=60_000, chunk=20)}
+TIERS = {"quick": dict(runs=960, chunk=10), "thorough": dict(budget_s=480, max_runs=60_000, chunk=20)}
 RUN_WALL_CAP = 120
 RULE = ("one case = 1-3 clients, each a template network config (T1 filter->[overhang]->SIMP->stiffness->LinSolve->compliance with "
         "solver variants; T2 SystemOfEquations; T3 StaticCondensation; T4 sparse generalised EigenSolve; T5 stress->von Mises->"
@@ -65,7 +65,7 @@ def _client(rng, tier="quick"):
     ops = []
     nops = int(rng.integers(3, 50 if tier == "thorough" else 26))
     messy = float(rng.choice([0.1, 0.3, 0.5]))
-    p_fault = 0.25 if cfg["solver"] in ("dense_auto",) else 0.0
+    p_fault = 0.5 if cfg["solver"] in ("dense_auto",) else 0.0
     # protocol automaton with messy deviations.  The regular cycle is the one of an optimisation loop with several responses
     # (what MMA.response does): set inputs -> response -> (seed -> sensitivity -> reset) x k -> next design
     state, left = "fresh", 0
